@@ -33,6 +33,11 @@ func init() {
 		json.Unmarshal(raw, &cs)
 		return c14AfterElement(cs.Container, cs.D)
 	}
+	replayers["C14/extra-operand"] = func(c *Ctx, raw json.RawMessage) string {
+		var d Directive
+		json.Unmarshal(raw, &d)
+		return c14Extra(d)
+	}
 	replayers["C14/wrappers"] = func(c *Ctx, raw json.RawMessage) string {
 		var cs struct {
 			D Directive
@@ -189,6 +194,39 @@ type c14Pair struct {
 	F interface{}
 }
 
+// c14Extra: a formatter printed as an EXTRA operand (more operands than directives) sees the bare %v state,
+// under fmt and under redact, whatever the last directive was.
+func c14Extra(d Directive) string {
+	if d.Verb == 'T' || d.Verb == 'p' || d.Verb == '%' {
+		return ""
+	}
+	f, stars := d.Format()
+	for name, mk := range map[string]func(st *fstate) interface{}{
+		"Formatter":     func(st *fstate) interface{} { return recFormatter{st} },
+		"SafeFormatter": func(st *fstate) interface{} { return recSafeFormatter{st} },
+	} {
+		for _, pn := range []string{"fmt", "redact"} {
+			if pn == "fmt" && name == "SafeFormatter" {
+				continue
+			}
+			var st fstate
+			args := append(append([]interface{}{}, stars...), 3.5, mk(&st))
+			if pn == "redact" {
+				redact.Sprintf("x"+f+"y", args...)
+			} else {
+				fmt.Sprintf("x"+f+"y", args...)
+			}
+			if !st.Called {
+				return fmt.Sprintf("%s/%s: extra operand after %s was not formatted", pn, name, d)
+			}
+			if !st.JustV || st.Fmt != "%v" {
+				return fmt.Sprintf("%s/%s: a formatter printed as EXTRA operand after %s sees state %s, MakeFormat=(%v,%q); want the bare %%v", pn, name, d, st.key(), st.JustV, st.Fmt)
+			}
+		}
+	}
+	return ""
+}
+
 var c14Containers = []struct {
 	Name string
 	Mk   func(f interface{}) interface{}
@@ -324,6 +362,14 @@ func checkC14(c *Ctx) {
 			if dt := c14AfterElement(ci, d); dt != "" {
 				w.Fail("after-element", map[string]interface{}{"Container": ci, "D": d}, dt)
 			}
+		}
+		w.Seen(uint64(i))
+	})
+	c.Section("C14/extra-operand", map[string]interface{}{"directives": sp.Size()}, sp.Size(), func(i int, w *Worker) {
+		d := sp.Get(i)
+		w.Eval()
+		if dt := c14Extra(d); dt != "" {
+			w.Fail("extra-operand", d, dt)
 		}
 		w.Seen(uint64(i))
 	})
